@@ -213,7 +213,9 @@ func (i *Iterator) Next(ctx context.Context, span telem.TimeSpan) (ok bool) {
 }
 
 func (i *Iterator) autoNext(ctx context.Context) bool {
-	i.view.Start = i.view.End
+	// Clear the previous step's frame before anything can fail: an early return on
+	// error must not leave Value() showing samples of the previous view.
+	i.reset(i.view.End.SpanRange(0))
 	endApprox, err := i.idx.Stamp(
 		ctx,
 		i.view.Start,
@@ -284,7 +286,7 @@ func (i *Iterator) autoNext(ctx context.Context) bool {
 }
 
 func (i *Iterator) autoPrev(ctx context.Context) bool {
-	i.view.End = i.view.Start
+	i.reset(i.view.Start.SpanRange(0))
 	startApprox, err := i.idx.Stamp(
 		ctx,
 		i.view.Start,
